@@ -732,6 +732,36 @@ def r22_rpc(src, log):
 
 
 
+def r24_guarded_try(src, log, names):
+    """`RECV.name(ARGS)?`  ->  `(match RECV.name(ARGS) { Ok(v__) => v__, Err(e__) => { name_error_propagated(); return Err(From::from(e__)) } })`
+    for the listed method names: the `?` is spelled out so that propagating this particular error is a visible step (the shim
+    `<name>_error_propagated()` carries the obligation).  Fires only where the code applies `?` directly to such a call."""
+    n = 0
+    for name in names:
+        while True:
+            toks = lex(src); m = match_brackets(toks); s = sig(toks)
+            hit = None
+            for k, i in enumerate(s):
+                if toks[i].text == "." and k + 2 < len(s) and toks[s[k + 1]].text == name and toks[s[k + 2]].text == "(":
+                    c = m[s[k + 2]]; ck = s.index(c)
+                    if ck + 1 < len(s) and toks[s[ck + 1]].text == "?":
+                        j = k - 1
+                        while j >= 0 and (toks[s[j]].kind == "ident" or toks[s[j]].text == "."):
+                            j -= 1
+                        r0 = j + 1
+                        expr = src[toks[s[r0]].start:toks[c].end]
+                        hit = (toks[s[r0]].start, toks[s[ck + 1]].end,
+                               "(match %s { Ok(v__) => v__, Err(e__) => { %s_error_propagated(); return Err(From::from(e__)) } })" % (expr, name))
+                        break
+            if hit is None:
+                break
+            src = _replace(src, [hit])
+            n += 1
+    log["R24"] = log.get("R24", 0) + n
+    return src
+
+
+
 def r11_bytelits(src, log, table):
     """b"lit" -> blit_<n>()  ; table collects the generated external_body functions.
     `E == b"lit"` (slice equality against a literal) -> `bytes_eq(E, blit_<n>())`, where the shim
@@ -952,6 +982,36 @@ def r7_apply(src, log, map_kind="result", path_map_kind="result"):
                 arg_a, arg_b = toks[o].end, toks[c].start
                 arg = src[arg_a:arg_b].strip()
                 is_closure = arg.startswith("|")
+                if meth in ("unwrap_or_else", "map") and not is_closure and re.fullmatch(r"[A-Za-z_][\w:]*", arg):
+                    transposed_p = (meth == "map" and ck_ + 4 < len(s) and toks[s[ck_ + 1]].text == "." and toks[s[ck_ + 2]].text == "transpose"
+                                    and toks[s[ck_ + 3]].text == "(" and toks[s[ck_ + 4]].text == ")")
+                    if meth == "unwrap_or_else" or transposed_p:
+                        j = k - 1
+                        while j >= 0:
+                            tj = toks[s[j]]
+                            if tj.text == "}" and toks[s[j + 1]].text not in (".", "?"):
+                                break
+                            if tj.text in ")]}":
+                                j = s.index(m[s[j]]) - 1
+                                continue
+                            if tj.text in "({[;," or tj.text == "=" or (tj.text == ">" and toks[s[j - 1]].text == "=") or \
+                                    (tj.text == ":" and toks[s[j - 1]].text != ":" and toks[s[j + 1]].text != ":") or \
+                                    (tj.kind == "ident" and tj.text in ("return", "break", "in", "let", "match", "if")):
+                                break
+                            j -= 1
+                        r0 = j + 1
+                        recv = src[toks[s[r0]].start:t.start].strip()
+                        if meth == "unwrap_or_else":
+                            new = "(match %s { Some(v__) => v__, None => %s() })" % (recv, arg)
+                            endt = c
+                        else:
+                            new = "(match %s { Some(v__) => (match %s(v__) { Ok(w__) => Ok(Some(w__)), Err(e__) => Err(e__) }), None => Ok(None) })" % (recv, arg)
+                            endt = s[ck_ + 4]
+                        src = _replace(src, [(toks[s[r0]].start, toks[endt].end, new)])
+                        log["R7"] = log.get("R7", 0) + 1
+                        log.setdefault("R7.fired", []).append(meth + "(path)")
+                        changed = True
+                        break
                 if meth == "map" and not is_closure and re.fullmatch(r"[A-Za-z_][\w:]*", arg) and path_map_kind == "result":
                     # Result::map(path)
                     j = k - 1
@@ -1048,8 +1108,10 @@ def r7_apply(src, log, map_kind="result", path_map_kind="result"):
                     new = "(match %s { Some(v__) => Some(v__), None => %s })" % (recv, body)
                 elif meth == "unwrap_or_else":
                     if params:
-                        continue
-                    new = "(match %s { Some(v__) => v__, None => %s })" % (recv, body)
+                        # Result::unwrap_or_else(|e| B)
+                        new = "(match %s { Ok(v__) => v__, Err(%s) => %s })" % (recv, params, body)
+                    else:
+                        new = "(match %s { Some(v__) => v__, None => %s })" % (recv, body)
                 elif meth == "then":
                     if params:
                         continue
@@ -1137,8 +1199,9 @@ def process_template(tpl_path: str, repo: str, variant: dict | None = None) -> U
     while i < len(tpl):
         line = tpl[i]
         dm = _DIR.match(line)
-        if not dm or dm.group(1) not in ("extract", "item", "bytelits"):
-            res.lines.append(GenLine(line, ("tpl", i + 1, None, "prelude")))
+        if not dm or dm.group(1) not in ("extract", "item", "bytelits", "assoc"):
+            lm = re.search(r"//\s*OBL:([\w.+\-]+)", line)
+            res.lines.append(GenLine(line, ("tpl", i + 1, lm.group(1) if lm else None, "prelude")))
             i += 1
             continue
         if dm.group(1) == "bytelits":
@@ -1147,6 +1210,30 @@ def process_template(tpl_path: str, repo: str, variant: dict | None = None) -> U
             for mm in re.finditer(r"(\S+)=([\w:]+)", dm.group(2)):
                 res.bytelit_map[mm.group(1)] = mm.group(2)
             res.lines.append(GenLine("//@@BYTELITS@@", ("gen", "bytelits")))
+            i += 1
+            continue
+        if dm.group(1) == "assoc":
+            kv = _parse_kv(dm.group(2))
+            src = open(os.path.join(repo, kv["file"])).read()
+            mm = None
+            for hm in re.finditer(r"\bimpl\b([^{;]*)\{", src):
+                if re.search(kv["impl"], " ".join(("impl" + hm.group(1)).split())):
+                    toks_ = lex(src); m_ = match_brackets(toks_)
+                    o_ = next(ix for ix, tk in enumerate(toks_) if tk.start == hm.end() - 1)
+                    blk = src[toks_[o_].end:toks_[m_[o_]].start]
+                    am = re.search(r"\btype\s+%s\s*=\s*([^;]+);" % re.escape(kv["name"]), blk)
+                    if am:
+                        mm = (am, toks_[o_].end)
+                    break
+            if mm is None:
+                raise ExtractError("anchor lost: assoc type %s in impl /%s/ of %s" % (kv["name"], kv["impl"], kv["file"]))
+            am, base = mm
+            text = "type %s = %s;" % (kv["name"], am.group(1).strip())
+            for pair in [x for x in kv.get("sub", "").split(";") if x]:
+                x, y = pair.split("=>"); text = text.replace(x, y)
+            res.lines.append(GenLine(text, ("src", kv["file"], _line_of(src, base + am.start()))))
+            res.functions.append({"id": "assoc:%s:%s" % (kv["impl"], kv["name"]), "kind": "item", "file": kv["file"],
+                                  "lines": [_line_of(src, base + am.start())] * 2, "sha256": hashlib.sha256(text.encode()).hexdigest(), "rules": {}})
             i += 1
             continue
         if dm.group(1) == "item":
@@ -1374,6 +1461,8 @@ def _gen_function(kv, sections, repo, res: UnitResult, variant) -> list:
             body = r22_rpc(body, log)
         elif r == "R19":
             body = r19_any_all(body, log, kv.get("r19kind", "vec"))
+        elif r == "R24":
+            body = r24_guarded_try(body, log, [x for x in kv.get("guardtry", "").split(",") if x])
         elif r == "R8":
             body = r8_constpat(body, log, [c for c in kv.get("constpats", "").split(",") if c])
         elif r in RULES:
